@@ -347,3 +347,18 @@ M("C02", "elseif-second-pass", SYM, "        sources = sources or {}\n        se
 M("C02", "or-gate-inverted", SYM, "            if left_is_false:\n                yield from self.evaluate_right(left_value.bindings)\n            else:", "            if not left_is_false:\n                yield from self.evaluate_right(left_value.bindings)\n            else:", "right-gated")
 M("C02", "and-left-twice", SYM, "        left_values = self.left._evaluate__(sources, parent=self)\n        for left_value in left_values:\n            self._is_false_ = left_value.is_false\n            if self._is_false_:", "        left_values = itertools.chain(self.left._evaluate__(sources, parent=self), self.left._evaluate__(sources, parent=self))\n        for left_value in left_values:\n            self._is_false_ = left_value.is_false\n            if self._is_false_:", "AND#left-once")
 R("C02", "bound-check-early-return-form", SYM, "        if self._id_ in sources:\n            yield OperationResult(sources, False, self)\n            return\n        result_count = 0", "        if self._id_ in sources:\n            yield OperationResult(sources, False, self)\n            return\n        else:\n            pass\n        result_count = 0")
+
+# ------------------------------------------------------------------------------------- C03
+M("C03", "no-reset-of-concluded", CSF, "        for seen_set in self.concluded_before.values():\n            seen_set.clear()\n", "        pass\n", "CARRY-1@ConclusionSelector.concluded_before")
+M("C03", "reset-never-called", SYM, "        for node in self._all_nodes_:\n            node._reset_evaluation_state_()\n", "", "CARRY-1@ConclusionSelector.concluded_before")
+M("C03", "conclusion-not-cleared", CSF, "        yield OperationResult(result.bindings, self._is_false_, self)\n        self._conclusion_.clear()\n", "        yield OperationResult(result.bindings, self._is_false_, self)\n", "") if False else None
+M("C03", "memoised-results-on-node", SYM, "        sources = sources or {}\n        self._eval_parent_ = parent\n        for v in self._child_._evaluate__(sources, parent=self):\n            self._is_false_ = v.is_true\n            yield OperationResult(v.bindings, self._is_false_, self)", "        sources = sources or {}\n        self._eval_parent_ = parent\n        for v in self._child_._evaluate__(sources, parent=self):\n            self._is_false_ = v.is_true\n            self._conclusion_.add(v)\n            yield OperationResult(v.bindings, self._is_false_, self)", "CARRY-1")
+M("C03", "sticky-flag", SYM, "            self._is_false_ = left_value.is_false\n            if self._is_false_:\n                yield OperationResult(left_value.bindings, self._is_false_, self)", "            self._is_false_ = self._is_false_ or left_value.is_false\n            if self._is_false_:\n                yield OperationResult(left_value.bindings, self._is_false_, self)", "CARRY-1@SymbolicExpression._is_false_")
+M("C03", "new-seen-list", SYM, "        variable_ids = [v._id_ for v in self.variable._all_variable_instances_]\n        seen_variable_bindings = set()\n", "        variable_ids = [v._id_ for v in self.variable._all_variable_instances_]\n        seen_variable_bindings = self._seen_parent_values_by_parent_.setdefault(0, set())\n", "CARRY-1")
+M("C03", "handshake-dropped-and", SYM, "        sources = sources or {}\n        self._eval_parent_ = parent\n        left_values = self.left._evaluate__(sources, parent=self)", "        sources = sources or {}\n        left_values = self.left._evaluate__(sources, parent=self)", "AND._evaluate__")
+M("C03", "handshake-after-children", SYM, "        sources = sources or {}\n        self._eval_parent_ = parent\n        for v in self._child_._evaluate__(sources, parent=self):\n            self._is_false_ = v.is_true", "        sources = sources or {}\n        for v in self._child_._evaluate__(sources, parent=self):\n            self._eval_parent_ = parent\n            self._is_false_ = v.is_true", "Not._evaluate__#parent-installed-first")
+M("C03", "child-gets-wrong-parent", SYM, "        right_values = self.right._evaluate__(left_value.bindings, parent=self)\n        for right_value in right_values:\n            self._is_false_ = right_value.is_false\n            yield OperationResult(right_value.bindings, self._is_false_, self)\n\n\n@dataclass(eq=False, repr=False)\nclass OR", "        right_values = self.right._evaluate__(left_value.bindings, parent=self._parent_)\n        for right_value in right_values:\n            self._is_false_ = right_value.is_false\n            yield OperationResult(right_value.bindings, self._is_false_, self)\n\n\n@dataclass(eq=False, repr=False)\nclass OR", "child-parent")
+M("C03", "the-forgets-parent", SYM, "            yield from super()._evaluate__(sources, parent=parent)\n        except LessThanExpectedNumberOfSolutions:", "            yield from super()._evaluate__(sources)\n        except LessThanExpectedNumberOfSolutions:", "The._evaluate__")
+M("C03", "domain-generator-in-variable", SYM, "        elif self._domain_:\n            for v in self._domain_:", "        elif self._domain_:\n            self._pending_ = iter(self._domain_)\n            for v in self._pending_:", "CARRY-2")
+R("C03", "local-scratch", SYM, "        sources = sources or {}\n        self._eval_parent_ = parent\n        left_values = self.left._evaluate__(sources, parent=self)", "        sources = sources or {}\n        self._eval_parent_ = parent\n        seen_here = set()\n        seen_here.add(1)\n        left_values = self.left._evaluate__(sources, parent=self)")
+CASES[:] = [c for c in CASES if c]
